@@ -8,13 +8,18 @@ All theorems quantify over every configuration `cfg` (memca | gcsca authority, m
 both step sequencings of rotate.Key, library or CLI entry) and over every command history `h`
 (unbounded list; `run cfg State.init h` is the state after the history).
 
-Full-strength and proved for ALL histories: C12_root_profile, C12_serial_succ, C12_no_clobber (gcsca),
-C12_wipeout_total.  Four clauses fail on the current code for histories that bootstrap over a
-populated store (D18) — and only for those, and for a signing key named like the root: their
-full statements are the `def … : Prop` below, each with a proved witness `C12_finding_…` of its
-negation and a proved `…_partial` theorem whose extra hypotheses are exactly `CleanRun` (every
-bootstrap of the history runs on an empty store) and `Roles` (root common names are not reused for
-signing keys).
+`cfg.guard = true` is gcsca.upload as it is after its two "fix:" commits (an object recorded for another
+key version is refused; an existing object that keep_going left unwritten is not recorded); `guard = false`
+is the upload of before, kept for the witness `C12_old_keep_going_records_root_cert`.
+
+Full-strength and proved for ALL histories (both values of `guard`): C12_root_profile, C12_serial_succ,
+C12_no_clobber (gcsca), C12_wipeout_total.  Four clauses fail on the current code for histories that
+bootstrap over a populated store (D18 = known findings C12-K1…K4) — and only for those: their full
+statements are the `def … : Prop` below, each with a proved witness `C12_finding_…` of its negation and a
+proved `…_partial` theorem whose ONLY extra hypothesis is `CleanRun` (every bootstrap of the history runs
+on an empty store).  The former second hypothesis `Roles` (root common names are not given to signing
+keys; finding C12-K5 / D19) is gone: the repaired upload refuses the colliding object, and the
+invariant no longer distinguishes certificate objects by their common name.
 -/
 namespace GceTcb.KeyHistory
 open GceTcb.Gen
@@ -48,19 +53,19 @@ theorem C12_root_profile (cfg : Cfg) (h : List Cmd) (r : Cert)
 /-- FULL STATEMENT (fails today, see C12_finding_rebootstrap): after any history every certificate the
     authority records, other than the root's entry, has the signing profile and is issued by the served root. -/
 def C12_signing_profile : Prop :=
-  ∀ (cfg : Cfg) (h : List Cmd) (n : KName) (c : Cert),
+  ∀ (cfg : Cfg), cfg.guard = true → ∀ (h : List Cmd) (n : KName) (c : Cert),
     certificate (run cfg State.init h).ca n = some c → n ≠ (run cfg State.init h).ca.primaryRoot →
     SignProfile c ∧ ∃ r, bundle cfg (run cfg State.init h).ca = some r ∧ IssuedBy r c
 
-/-- Proved part: histories that never bootstrap over a populated store (and keep root common names
-    for roots).  Missing for the full statement: bootstrap over a populated store leaves the previous
-    root's signing certificates recorded (D18). -/
-theorem C12_signing_profile_partial (cfg : Cfg) (R : List String) (h : List Cmd)
-    (hr : Roles R h) (hc : CleanRun cfg State.init h) (n : KName) (c : Cert)
+/-- Proved part: histories that never bootstrap over a populated store — with ANY common names, serial
+    overrides, overwrite and keep_going flags.  Missing for the full statement: bootstrap over a populated
+    store leaves the previous root's signing certificates recorded (D18). -/
+theorem C12_signing_profile_partial (cfg : Cfg) (hg : cfg.guard = true) (h : List Cmd)
+    (hc : CleanRun cfg State.init h) (n : KName) (c : Cert)
     (hn : certificate (run cfg State.init h).ca n = some c)
     (hroot : n ≠ (run cfg State.init h).ca.primaryRoot) :
     SignProfile c ∧ ∃ r, bundle cfg (run cfg State.init h).ca = some r ∧ IssuedBy r c := by
-  obtain ⟨hca, _⟩ := Inv_run cfg R h State.init (Inv_init cfg R) hr hc
+  obtain ⟨hca, _⟩ := Inv_run cfg hg h State.init (Inv_init cfg) hc
   unfold certificate at hn
   cases he : get (run cfg State.init h).ca.entries n with
   | none => simp [he] at hn
@@ -70,10 +75,12 @@ theorem C12_signing_profile_partial (cfg : Cfg) (R : List String) (h : List Cmd)
       rcases hca.rootOrEmpty with h1 | ⟨_, h1⟩
       · rw [h1] at hroot; exact hroot
       · rw [h1] at he; simp [get] at he
-    exact hca.good p c hn (hca.nonroot n p he hne)
+    exact hca.good n p c he hne hn
 
-def memCfg : Cfg := ⟨.memca, .memkm, false, false⟩
-def gcsCfg : Cfg := ⟨.gcsca, .memkm, true, false⟩
+def memCfg : Cfg := ⟨.memca, .memkm, false, false, true⟩
+def gcsCfg : Cfg := ⟨.gcsca, .memkm, true, false, true⟩
+/-- gcsca with upload as it was before its two "fix:" commits -/
+def gcsCfgOld : Cfg := ⟨.gcsca, .memkm, true, false, false⟩
 def noFlags : Flags := ⟨false, false⟩
 def owFlags : Flags := ⟨true, false⟩
 
@@ -86,7 +93,7 @@ def rebootHistory : List Cmd :=
     carries the certificate issued by the previous root (signer key 0; the served root has key 3). -/
 theorem C12_finding_rebootstrap : ¬ C12_signing_profile := by
   intro hfull
-  have h := hfull memCfg rebootHistory ⟨"primarySigningKey", 1⟩
+  have h := hfull memCfg rfl rebootHistory ⟨"primarySigningKey", 1⟩
     ⟨3, 3, "signA", "rootA", 1, 2, 0, 0, false, 1, 13, 2000, 2000 + signLifetime⟩ (by decide) (by decide)
   obtain ⟨_, r, hr, hi, _⟩ := h
   have hr' : bundle memCfg (run memCfg State.init rebootHistory).ca =
@@ -99,18 +106,43 @@ theorem C12_finding_rebootstrap : ¬ C12_signing_profile := by
 def keepGoingHistory : List Cmd :=
   [.bootstrap noFlags ⟨"rootA", "signA", 1, 2, 1000⟩, .rotate ⟨false, true⟩ ⟨"rootA", some 1, 2000⟩]
 
-/-- D19 witness (why `Roles` is a hypothesis): on gcsca a rotation with keep_going, without overwrite,
-    whose certificate would get the object name of the root's certificate is recorded WITHOUT being
-    written: the new primary's entry then serves the root certificate, a CA certificate.  The history is
-    a clean run (no bootstrap over a populated store). -/
-theorem C12_finding_keep_going_unwritten :
-    CleanRun gcsCfg State.init keepGoingHistory ∧ ¬ C12_signing_profile := by
-  refine ⟨⟨fun _ => ⟨rfl, rfl, rfl⟩, fun h => by simp [isBootstrap] at h, trivial⟩, ?_⟩
-  intro hfull
-  have h := hfull gcsCfg keepGoingHistory ⟨"primarySigningKey", 1⟩
-    ⟨1, 1, "rootA", "rootA", 1, 0, 0, 0, true, 96, 13, 1000, 1000 + rootLifetime⟩ (by decide) (by decide)
-  have hca := h.1.1
-  revert hca; decide
+/-- the clause of `C12_signing_profile` on one configuration and history -/
+def SigningProfileOn (cfg : Cfg) (h : List Cmd) : Prop :=
+  ∀ (n : KName) (c : Cert), certificate (run cfg State.init h).ca n = some c → n ≠ (run cfg State.init h).ca.primaryRoot →
+    SignProfile c ∧ ∃ r, bundle cfg (run cfg State.init h).ca = some r ∧ IssuedBy r c
+
+/-- **The old upload records the root certificate as a signing certificate** (finding C12-K5 / D19, repaired):
+    on gcsca as it was BEFORE the fix, a rotation with keep_going, without overwrite, whose certificate would get
+    the object name of the root's certificate is recorded WITHOUT being written — the new primary's entry then
+    serves the root certificate, a CA certificate — although the history is a clean run.  On the repaired
+    upload the same history satisfies the clause (instance of `C12_signing_profile_partial`), the rotation is
+    refused and the primary stays `primarySigningKey`. -/
+theorem C12_old_keep_going_records_root_cert :
+    CleanRun gcsCfgOld State.init keepGoingHistory ∧ ¬ SigningProfileOn gcsCfgOld keepGoingHistory ∧
+    CleanRun gcsCfg State.init keepGoingHistory ∧ SigningProfileOn gcsCfg keepGoingHistory ∧
+    (run gcsCfg State.init keepGoingHistory).ca.primarySigning = firstName := by
+  refine ⟨⟨fun _ => ⟨rfl, rfl, rfl⟩, fun h => by simp [isBootstrap] at h, trivial⟩, ?_,
+    ⟨fun _ => ⟨rfl, rfl, rfl⟩, fun h => by simp [isBootstrap] at h, trivial⟩, ?_, by decide⟩
+  · intro hfull
+    have h := hfull ⟨"primarySigningKey", 1⟩
+      ⟨1, 1, "rootA", "rootA", 1, 0, 0, 0, true, 96, 13, 1000, 1000 + rootLifetime⟩ (by decide) (by decide)
+    have hca := h.1.1
+    revert hca; decide
+  · intro n c hn hr
+    exact C12_signing_profile_partial gcsCfg rfl keepGoingHistory
+      ⟨fun _ => ⟨rfl, rfl, rfl⟩, fun h => by simp [isBootstrap] at h, trivial⟩ n c hn hr
+
+/-- … and the same object with `--overwrite` (the input class of C10's finding D22, here on the root's
+    certificate object): before the fix the root key version's entry ends up serving a signing certificate;
+    the repaired upload refuses, the root's entry keeps serving the root certificate. -/
+theorem C12_old_overwrite_clobbers_root_entry :
+    (certificate (run gcsCfgOld State.init
+      [.bootstrap noFlags ⟨"rootA", "signA", 1, 2, 1000⟩, .rotate owFlags ⟨"rootA", some 1, 2000⟩]).ca rootName).map (·.isCA) = some false ∧
+    (certificate (run gcsCfg State.init
+      [.bootstrap noFlags ⟨"rootA", "signA", 1, 2, 1000⟩, .rotate owFlags ⟨"rootA", some 1, 2000⟩]).ca rootName).map (·.isCA) = some true ∧
+    (step gcsCfg (run gcsCfg State.init [.bootstrap noFlags ⟨"rootA", "signA", 1, 2, 1000⟩])
+      (.rotate owFlags ⟨"rootA", some 1, 2000⟩)).2 = false := by
+  decide
 
 /-! ### serial numbers -/
 
@@ -171,20 +203,20 @@ theorem C12_serial_override (cfg : Cfg) (h : List Cmd) (f : Flags) (a : RotArgs)
 /-- FULL STATEMENT (fails today, see C12_finding_rebootstrap_old_key): among the key versions the
     authority records a signing certificate for, only the current primary can sign. -/
 def C12_only_primary_signs : Prop :=
-  ∀ (cfg : Cfg) (h : List Cmd) (n : KName) (c : Cert) (k : Nat),
+  ∀ (cfg : Cfg), cfg.guard = true → ∀ (h : List Cmd) (n : KName) (c : Cert) (k : Nat),
     certificate (run cfg State.init h).ca n = some c → n ≠ (run cfg State.init h).ca.primaryRoot →
     get (run cfg State.init h).km.live n = some k → n = (run cfg State.init h).ca.primarySigning
 
 /-- Proved part: histories that never bootstrap over a populated store — every recorded signing key
     version other than the primary was destroyed.  Missing: bootstrap over a populated store leaves
     the previous primary alive and recorded. -/
-theorem C12_only_primary_signs_partial (cfg : Cfg) (R : List String) (h : List Cmd)
-    (hr : Roles R h) (hc : CleanRun cfg State.init h) (n : KName) (c : Cert) (k : Nat)
+theorem C12_only_primary_signs_partial (cfg : Cfg) (hg : cfg.guard = true) (h : List Cmd)
+    (hc : CleanRun cfg State.init h) (n : KName) (c : Cert) (k : Nat)
     (hn : certificate (run cfg State.init h).ca n = some c)
     (hroot : n ≠ (run cfg State.init h).ca.primaryRoot)
     (hl : get (run cfg State.init h).km.live n = some k) :
     n = (run cfg State.init h).ca.primarySigning := by
-  obtain ⟨hca, hkm⟩ := Inv_run cfg R h State.init (Inv_init cfg R) hr hc
+  obtain ⟨hca, hkm⟩ := Inv_run cfg hg h State.init (Inv_init cfg) hc
   have hsome : (get (run cfg State.init h).ca.entries n).isSome = true := by
     unfold certificate at hn
     cases he : get (run cfg State.init h).ca.entries n with
@@ -203,7 +235,7 @@ theorem C12_only_primary_signs_partial (cfg : Cfg) (R : List String) (h : List C
     is still recorded and can still sign, while the primary is `primarySigningKey`. -/
 theorem C12_finding_rebootstrap_old_key : ¬ C12_only_primary_signs := by
   intro hfull
-  have h := hfull memCfg rebootHistory ⟨"primarySigningKey", 1⟩
+  have h := hfull memCfg rfl rebootHistory ⟨"primarySigningKey", 1⟩
     ⟨3, 3, "signA", "rootA", 1, 2, 0, 0, false, 1, 13, 2000, 2000 + signLifetime⟩ 2 (by decide) (by decide) (by decide)
   revert h; decide
 
@@ -216,17 +248,17 @@ theorem C12_bump_increases (k : KName) : (bump k).base = k.base ∧ k.idx < (bum
 /-- FULL STATEMENT (fails today, see C12_finding_rebootstrap_name_reuse): the name a rotation creates
     was neither certified by the authority nor destroyed since the last key wipeout. -/
 def C12_names_fresh_between_wipeouts : Prop :=
-  ∀ (cfg : Cfg) (h : List Cmd) (f : Flags) (a : RotArgs),
+  ∀ (cfg : Cfg), cfg.guard = true → ∀ (h : List Cmd) (f : Flags) (a : RotArgs),
     (step cfg (run cfg State.init h) (.rotate f a)).2 = true →
     certificate (run cfg State.init h).ca (bump (run cfg State.init h).ca.primarySigning) = none ∧
     bump (run cfg State.init h).ca.primarySigning ∉ (run cfg State.init h).km.destroyed
 
 /-- Proved part (even for failing rotations): histories that never bootstrap over a populated store. -/
-theorem C12_names_fresh_between_wipeouts_partial (cfg : Cfg) (R : List String) (h : List Cmd)
-    (hr : Roles R h) (hc : CleanRun cfg State.init h) :
+theorem C12_names_fresh_between_wipeouts_partial (cfg : Cfg) (hg : cfg.guard = true) (h : List Cmd)
+    (hc : CleanRun cfg State.init h) :
     certificate (run cfg State.init h).ca (bump (run cfg State.init h).ca.primarySigning) = none ∧
     bump (run cfg State.init h).ca.primarySigning ∉ (run cfg State.init h).km.destroyed := by
-  obtain ⟨hca, hkm⟩ := Inv_run cfg R h State.init (Inv_init cfg R) hr hc
+  obtain ⟨hca, hkm⟩ := Inv_run cfg hg h State.init (Inv_init cfg) hc
   refine ⟨by simp [certificate, hca.kver_fresh], ?_⟩
   intro hmem
   obtain ⟨d1, d2⟩ := hkm.dfam _ hmem
@@ -238,7 +270,7 @@ theorem C12_names_fresh_between_wipeouts_partial (cfg : Cfg) (R : List String) (
     time without any wipeout in between. -/
 theorem C12_finding_rebootstrap_name_reuse : ¬ C12_names_fresh_between_wipeouts := by
   intro hfull
-  have h := hfull memCfg rebootHistory noFlags ⟨"signB", none, 4000⟩ (by decide)
+  have h := hfull memCfg rfl rebootHistory noFlags ⟨"signB", none, 4000⟩ (by decide)
   revert h; decide
 
 /-! ### no certificate object changes without overwrite -/
@@ -250,10 +282,10 @@ theorem C12_no_clobber (cfg : Cfg) (hg : cfg.ca = .gcsca) (h : List Cmd) (c : Cm
     (∀ p x, get (run cfg State.init h).ca.objects p = some x → get (step cfg (run cfg State.init h) c).1.ca.objects p = some x) ∧
     (∀ r, (run cfg State.init h).ca.rootObj = some r → (step cfg (run cfg State.init h) c).1.ca.rootObj = some r) := by
   generalize run cfg State.init h = s
-  have key : ∀ m : Mut, (∀ p x, get s.ca.objects p = some x → get (gcsFinalize c.flags s.ca m).1.objects p = some x) ∧
-      (∀ r, s.ca.rootObj = some r → (gcsFinalize c.flags s.ca m).1.rootObj = some r) := by
+  have key : ∀ m : Mut, (∀ p x, get s.ca.objects p = some x → get (gcsFinalize cfg.guard c.flags s.ca m).1.objects p = some x) ∧
+      (∀ r, s.ca.rootObj = some r → (gcsFinalize cfg.guard c.flags s.ca m).1.rootObj = some r) := by
     intro m
-    obtain ⟨e1, e2⟩ := gcsFinalize_ext c.flags s.ca m
+    obtain ⟨e1, e2⟩ := gcsFinalize_ext cfg.guard c.flags s.ca m
     refine ⟨e1 hf, ?_⟩
     intro r hr
     rcases e2 with e | ⟨r', _, _, e⟩
@@ -291,31 +323,26 @@ theorem C12_no_clobber (cfg : Cfg) (hg : cfg.ca = .gcsca) (h : List Cmd) (c : Cm
 /-- FULL STATEMENT for memca (fails today, see C12_finding_rebootstrap_memca_clobber): memca has no
     overwrite check of its own. -/
 def C12_no_clobber_memca : Prop :=
-  ∀ (cfg : Cfg), cfg.ca = .memca → ∀ (h : List Cmd) (c : Cmd), isWipeout c = false → c.flags.overwrite = false →
+  ∀ (cfg : Cfg), cfg.guard = true → cfg.ca = .memca → ∀ (h : List Cmd) (c : Cmd), isWipeout c = false → c.flags.overwrite = false →
     ∀ p x, get (run cfg State.init h).ca.objects p = some x → get (step cfg (run cfg State.init h) c).1.ca.objects p = some x
 
 /-- Proved part: histories (including the last command) that never bootstrap over a populated store:
     the rotated key's name is fresh, so its certificate replaces nothing. -/
-theorem C12_no_clobber_memca_partial (cfg : Cfg) (hm : cfg.ca = .memca) (R : List String) (h : List Cmd) (c : Cmd)
-    (hr : Roles R (h ++ [c])) (hc : CleanRun cfg State.init (h ++ [c])) (hw : isWipeout c = false)
+theorem C12_no_clobber_memca_partial (cfg : Cfg) (hg : cfg.guard = true) (hm : cfg.ca = .memca) (h : List Cmd) (c : Cmd)
+    (hc : CleanRun cfg State.init (h ++ [c])) (hw : isWipeout c = false)
     (p : ObjKey) (x : Cert) (hp : get (run cfg State.init h).ca.objects p = some x) :
     get (step cfg (run cfg State.init h) c).1.ca.objects p = some x := by
-  have split : ∀ (l : List Cmd) (s : State), Roles R (l ++ [c]) → CleanRun cfg s (l ++ [c]) →
-      Roles R l ∧ CleanRun cfg s l ∧ (isBootstrap c = true → Clean (run cfg s l)) := by
+  have split : ∀ (l : List Cmd) (s : State), CleanRun cfg s (l ++ [c]) →
+      CleanRun cfg s l ∧ (isBootstrap c = true → Clean (run cfg s l)) := by
     intro l
     induction l with
-    | nil => intro s _ h2; exact ⟨trivial, trivial, h2.1⟩
+    | nil => intro s h2; exact ⟨trivial, h2.1⟩
     | cons d t ih =>
-      intro s h1 h2
-      obtain ⟨r1, r2⟩ := Roles_head h1
-      obtain ⟨i1, i2, i3⟩ := ih _ r2 h2.2
-      refine ⟨?_, ⟨h2.1, i2⟩, i3⟩
-      cases d with
-      | bootstrap f a => exact ⟨r1.1, r1.2.1, i1⟩
-      | rotate f a => exact ⟨r1.1, i1⟩
-      | wipeout f a b => exact i1
-  obtain ⟨hr', hc', hcl⟩ := split h State.init hr hc
-  obtain ⟨hca, _⟩ := Inv_run cfg R h State.init (Inv_init cfg R) hr' hc'
+      intro s h2
+      obtain ⟨i2, i3⟩ := ih _ h2.2
+      exact ⟨⟨h2.1, i2⟩, i3⟩
+  obtain ⟨hc', hcl⟩ := split h State.init hc
+  obtain ⟨hca, _⟩ := Inv_run cfg hg h State.init (Inv_init cfg) hc'
   generalize run cfg State.init h = s at hp hcl hca ⊢
   cases c with
   | wipeout f a b => simp [isWipeout] at hw
@@ -334,7 +361,7 @@ theorem C12_no_clobber_memca_partial (cfg : Cfg) (hm : cfg.ca = .memca) (R : Lis
         rcases rotateKey_ca cfg f s a.cn n a.now with e | ⟨oc, e⟩
         · rw [e]; exact hp
         · rw [e]
-          rcases caAfterRotate_shape (cfg := cfg) f oc hca.kver_fresh with e1 | ⟨_, e1⟩ | ⟨c, _, e1 | ⟨_, _, hgcs⟩⟩
+          rcases caAfterRotate_shape (cfg := cfg) f oc hca.kver_fresh with e1 | ⟨_, e1⟩ | ⟨c, _, ⟨e1, _⟩ | ⟨_, _, hgcs, _⟩⟩
           · rw [e1]; exact hp
           · rw [e1]; exact hp
           · rw [e1]
@@ -354,7 +381,7 @@ theorem C12_no_clobber_memca_partial (cfg : Cfg) (hm : cfg.ca = .memca) (R : Lis
     recorded certificates. -/
 theorem C12_finding_rebootstrap_memca_clobber : ¬ C12_no_clobber_memca := by
   intro hfull
-  have h := hfull memCfg rfl
+  have h := hfull memCfg rfl rfl
     [.bootstrap noFlags ⟨"rootA", "signA", 1, 2, 1000⟩, .wipeout noFlags false true]
     (.bootstrap noFlags ⟨"rootA", "signA", 1, 2, 5000⟩) rfl rfl
     (.byName rootName) ⟨1, 1, "rootA", "rootA", 1, 0, 0, 0, true, 96, 13, 1000, 1000 + rootLifetime⟩ (by decide)
@@ -400,8 +427,6 @@ def goodHistory : List Cmd :=
 /-- The concrete history `bootstrap; rotate; rotate` meets every hypothesis used above (clean run,
     roles, successful rotations, a served root, three recorded signing certificates with serials 2, 3, 4
     of which only the last key can sign) on both authorities and both sequencings. -/
-example : Roles ["GCE-cc-tcb-root"] goodHistory := by simp [goodHistory, Roles]
-
 example : CleanRun memCfg State.init goodHistory ∧ CleanRun gcsCfg State.init goodHistory := by
   refine ⟨⟨fun _ => ?_, fun h => ?_, fun h => ?_, trivial⟩, ⟨fun _ => ?_, fun h => ?_, fun h => ?_, trivial⟩⟩ <;>
     first | (exact ⟨rfl, rfl, rfl⟩) | (simp [isBootstrap] at h)
@@ -419,10 +444,29 @@ example :
   decide
 
 /-- C12_no_clobber is not vacuous: a rotation without overwrite onto an existing object name is refused
-    and changes nothing, the same rotation with overwrite replaces the object. -/
+    and changes nothing; with overwrite it is refused as well when the object is the recorded certificate of
+    another key version (here the first signing key's, serial 2); what overwrite does replace is a key
+    version's OWN recorded object (a second bootstrap with overwrite replaces both certificates, without it
+    is refused). -/
 example :
     (step gcsCfg (run gcsCfg State.init goodHistory) (.rotate noFlags ⟨"GCE-uefi-signer", some 2, 4000⟩)).2 = false ∧
-    (step gcsCfg (run gcsCfg State.init goodHistory) (.rotate owFlags ⟨"GCE-uefi-signer", some 2, 4000⟩)).2 = true := by
+    (step gcsCfg (run gcsCfg State.init goodHistory) (.rotate owFlags ⟨"GCE-uefi-signer", some 2, 4000⟩)).2 = false ∧
+    (step gcsCfgOld (run gcsCfgOld State.init goodHistory) (.rotate owFlags ⟨"GCE-uefi-signer", some 2, 4000⟩)).2 = true ∧
+    (step gcsCfg (run gcsCfg State.init goodHistory) (.bootstrap noFlags ⟨"GCE-cc-tcb-root", "GCE-uefi-signer", 1, 2, 9000⟩)).2 = false ∧
+    (step gcsCfg (run gcsCfg State.init goodHistory) (.bootstrap owFlags ⟨"GCE-cc-tcb-root", "GCE-uefi-signer", 1, 2, 9000⟩)).2 = true ∧
+    ((step gcsCfg (run gcsCfg State.init goodHistory) (.bootstrap owFlags ⟨"GCE-cc-tcb-root", "GCE-uefi-signer", 1, 2, 9000⟩)).1.ca.objects.map (·.2.notBefore))
+      = [9000, 9000, 2000, 3000] := by
   decide
+
+/-- The partial theorems are not vacuous beyond the former `Roles` restriction: a clean run in which a
+    rotated key is given the ROOT's common name (with a serial of its own) and a bootstrap uses one common
+    name for both certificates. -/
+example :
+    CleanRun gcsCfg State.init
+      [.bootstrap noFlags ⟨"same", "same", 1, 2, 1000⟩, .rotate noFlags ⟨"same", none, 2000⟩, .rotate ⟨false, true⟩ ⟨"same", some 1, 3000⟩] ∧
+    (run gcsCfg State.init
+      [.bootstrap noFlags ⟨"same", "same", 1, 2, 1000⟩, .rotate noFlags ⟨"same", none, 2000⟩, .rotate ⟨false, true⟩ ⟨"same", some 1, 3000⟩]).ca.primarySigning
+      = ⟨"primarySigningKey", 1⟩ := by
+  refine ⟨⟨fun _ => ⟨rfl, rfl, rfl⟩, fun h => by simp [isBootstrap] at h, fun h => by simp [isBootstrap] at h, trivial⟩, by decide⟩
 
 end GceTcb.KeyHistory
